@@ -32,7 +32,9 @@ META = {
                   "output amounts / UTXO scriptPubKey hash / locktime, all symbolic at once; witness-UTXO scriptPubKey hash (32 symbolic bytes); input "
                   "and output attached script: first key 33 symbolic bytes, OP_m and OP_n in [0x50, 0x54]; one derivation fingerprint: 4 symbolic "
                   "bytes (hdpubkey_map) or {another cosigner's, a foreign signer's, zero} (global xpubs); one derivation path: branch in {0,1} x "
-                  "index in 0..3"},
+                  "index in 0..3; an input carrying BOTH the honest non-witness UTXO record and a witness-UTXO record (written after it) whose "
+                  "amount is symbolic, or whose scriptPubKey hash is symbolic (20/32 bytes), assumed different from output prev_index of the "
+                  "previous transaction (twin: consistent double records are summarised with the committed amount)"},
         "thorough": {"same as quick, plus": "symbolic quorum opcodes also with symbolic fingerprints; UTXO / script alterations in both xpub modes; "
                                             "quorum opcodes in [0x4f, 0x58]"}},
     "outside": [
@@ -408,6 +410,17 @@ def build(sc, vals):
             txid = label32(f"outpoint {i}")
             e["utxo_out"] = spec_txout(amt, spk_p2wsh(h))
             e["witness"] = script
+        if inp.get("both"):
+            # the input carries the non-witness UTXO (previous transaction, committed by the outpoint) AND a witness-UTXO record; the
+            # honest form repeats output 0 of the previous transaction, the altered form changes its amount / scriptPubKey hash
+            mk_spk = spk_p2sh if kind == "p2sh" else spk_p2wsh
+            hh = _h160(script) if kind == "p2sh" else _sha256(script)
+            honest_prev = spec_tx(2, [(label32(f"funding {i}"), 1, 0xFFFFFFFE)],
+                                  [(amt, mk_spk(hh)), (5000 + i, b"\x00\x14" + label32("other")[:20])], 0)
+            txid = hhash256(honest_prev)[::-1]
+            t = tam.get("both_utxo", {}).get(str(i), {})
+            e["utxo_tx"] = honest_prev
+            e["utxo_out"] = spec_txout(t.get("amt", amt), mk_spk(t.get("h", hh)))
         if str(i) in tam.get("in_script", {}):
             t = tam["in_script"][str(i)]
             keys = sorted(c.key(rel) for c in cos)
@@ -693,6 +706,12 @@ def facts(sc, vals):
                           "m_op": script[0], "n_op": script[-2], "script_keys": (len(script) - 3) // 34,
                           "commit": bool(commit_cond(sc, oi))})
     f["tampered"] = sorted(vals.get("tamper", {}).keys())
+    for i, t in vals.get("tamper", {}).get("both_utxo", {}).items():
+        # which field of the additional witness-UTXO record differs from output 0 of the previous transaction
+        hh = (_h160 if sc["kind"] == "p2sh" else _sha256)(bytes(genuine_script(wallet(sc["kind"], sc["n"])[0], sc["m"], sc["ins"][int(i)]["rel"])))
+        f["both_utxo"] = {"input": int(i), "amount_differs": "amt" in t and t["amt"] != vals["in_amt"][int(i)],
+                          "spk_differs": "h" in t and bytes(t["h"]) != hh,
+                          "stated_sats": t.get("amt", vals["in_amt"][int(i)]), "prev_tx_sats": vals["in_amt"][int(i)]}
     f["honest_psbt_differs"] = bytes(spec_psbt(build(sc, honest_vals)[0])) != bytes(spec_psbt(model)) if vals.get("tamper") else False
     return f
 
@@ -843,6 +862,10 @@ def _tamper_path(sc, what):
         tam["prev"] = {"0": f}
     elif what == "wutxo":
         tam["wutxo_h"] = {"0": SBytes.sym("u.h", 32)}
+    elif what == "both_utxo_amt":
+        tam["both_utxo"] = {"0": {"amt": SI.var("w.amt", 0, MAX_SATS)}}
+    elif what == "both_utxo_spk":
+        tam["both_utxo"] = {"0": {"h": SBytes.sym("w.h", 20 if kind == "p2sh" else 32)}}
     elif what == "in_script":
         tam["in_script"] = {"0": _sym_script_tamper("s")}
     elif what == "out_script":
@@ -886,8 +909,16 @@ def _ob_tamper(kind, m, n, mode, whats):
           "outs": [{"type": "spend"}, _change_out(kind, 1)]}
     runs = []
     for what in whats:
-        r = sym_run(lambda: _tamper_path(sc, what))
-        if not any(k.startswith("'rejected") for k in r["classes"]):
+        scw = sc
+        if what.startswith("both_utxo"):
+            # input 0 carries both UTXO records
+            scw = dict(sc, ins=[dict(sc["ins"][0], both=True)] + sc["ins"][1:])
+        if what == "both_utxo_consistent":
+            # twin: the two records agree -> the PSBT is summarised with the committed amount
+            runs.append(sym_run(lambda: _arith_path(scw), mode="int", expect_classes=["ok"]))
+            continue
+        r = sym_run(lambda: _tamper_path(scw, what))
+        if not any(k.startswith("'rejected") for k in r["classes"]) and not r["violations"]:
             r["inconclusive"].append(f"reachability twin: no rejecting path for {what}")
         runs.append(r)
     r = merge_runs(runs)
@@ -1013,5 +1044,7 @@ def obligations(tier):
             if mode == "map" and q:
                 # alterations of UTXO / scripts are rejected by PSBT.parse before the xpub source matters; both modes in the thorough tier
                 whats = whats[3:]
+            else:
+                whats = whats + ["both_utxo_consistent", "both_utxo_amt", "both_utxo_spk"]
             obs.append(Ob("O3-tamper", ob_tamper, {"kind": kind, "m": m, "n": n, "mode": mode, "whats": tuple(whats)}, replay="summary", budget_s=1200))
     return obs
